@@ -487,6 +487,10 @@ enum P {
     Tail(Box<P>),
     Cons(Box<P>, Box<P>),
     Len(Box<P>),
+    /// struct literal: struct name, (field name, value) in *definition* order
+    Mk(String, Vec<(String, P)>),
+    /// field access: object, index of the field in the definition, field name
+    Get(Box<P>, usize, String),
 }
 
 /// a top-level definition
@@ -495,10 +499,12 @@ enum D {
     Let(String, P),
     /// name, parameters, `where` clauses (name, right-hand side), body
     Fn(String, Vec<String>, Vec<(String, P)>, P),
+    /// struct definition: the source text (nothing happens at run time)
+    Struct(String),
 }
 
 #[derive(Clone, Debug, PartialEq)]
-enum MTy { Dim(String), Scalar, Bool, List(Box<MTy>) }
+enum MTy { Dim(String), Scalar, Bool, List(Box<MTy>), Struct(usize) }
 
 impl P {
     fn src(&self) -> String { self.src_with(&[]) }
@@ -524,6 +530,13 @@ impl P {
             P::Tail(a) => format!("tail({})", a.src_with(subst)),
             P::Cons(a, l) => format!("cons({}, {})", a.src_with(subst), l.src_with(subst)),
             P::Len(a) => format!("len({})", a.src_with(subst)),
+            // the fields are written in the reverse of the definition order when there are two or more (the order in
+            // the source must not matter)
+            P::Mk(n, fs) => format!("{} {{ {} }}", n, fs.iter().rev().map(|(f, e)| format!("{}: {}", f, e.src_with(subst))).collect::<Vec<_>>().join(", ")),
+            P::Get(a, _, f) => match &**a {
+                P::Mk(..) => format!("({}).{}", a.src_with(subst), f),
+                _ => format!("{}.{}", a.src_with(subst), f),
+            },
         }
     }
     fn sexpr(&self, units: &Units) -> String {
@@ -550,6 +563,12 @@ impl P {
             P::Tail(a) => format!("(tail {})", a.sexpr(units)),
             P::Cons(a, l) => format!("(cons {} {})", a.sexpr(units), l.sexpr(units)),
             P::Len(a) => format!("(len {})", a.sexpr(units)),
+            P::Mk(_, fs) => {
+                // the compiler evaluates the fields in the reverse of the definition order: the chain lists them so
+                let chain = fs.iter().fold("(noarg)".to_string(), |acc, (_, e)| format!("(arg {} {})", e.sexpr(units), acc));
+                format!("(mk {})", chain)
+            }
+            P::Get(a, i, _) => format!("(get {} {})", a.sexpr(units), i),
         }
     }
     fn count_nodes(&self, out: &mut Out) {
@@ -558,6 +577,7 @@ impl P {
             P::Pow(..) => "pow", P::Not(_) => "not", P::Bool(_) => "bool", P::If(..) => "if",
             P::Loc(..) => "loc", P::Call(..) => "call",
             P::Lst(..) => "lst", P::Head(..) => "head", P::Tail(..) => "tail", P::Cons(..) => "cons", P::Len(..) => "len",
+            P::Mk(..) => "mk", P::Get(..) => "get",
         };
         out.count(&format!("mprog_node:{}", k));
         match self {
@@ -565,8 +585,9 @@ impl P {
             P::Bin(_, a, b) => { a.count_nodes(out); b.count_nodes(out); }
             P::If(c, t, e) => { c.count_nodes(out); t.count_nodes(out); e.count_nodes(out); }
             P::Call(_, _, args) | P::Lst(args) => { for a in args { a.count_nodes(out); } }
-            P::Head(a) | P::Tail(a) | P::Len(a) => a.count_nodes(out),
+            P::Head(a) | P::Tail(a) | P::Len(a) | P::Get(a, _, _) => a.count_nodes(out),
             P::Cons(a, l) => { a.count_nodes(out); l.count_nodes(out); }
+            P::Mk(_, fs) => { for (_, e) in fs { e.count_nodes(out); } }
             _ => {}
         }
     }
@@ -580,6 +601,8 @@ struct MGen<'a> {
     locals: Vec<(String, MTy)>,
     /// user functions defined so far: name, parameter types, result type
     fns: Vec<(String, Vec<MTy>, MTy)>,
+    /// structs defined so far: name, fields (name, type) in definition order
+    structs: Vec<(String, Vec<(String, MTy)>)>,
 }
 
 fn bx(p: P) -> Box<P> { Box::new(p) }
@@ -629,7 +652,36 @@ impl<'a> MGen<'a> {
             MTy::Scalar => self.scalar(rng, depth),
             MTy::Bool => self.cond(rng, depth),
             MTy::List(el) => self.list_of(rng, el, depth),
+            MTy::Struct(k) => self.struct_of(rng, *k, depth),
         }
+    }
+    /// an expression of the struct type `k`
+    fn struct_of(&self, rng: &mut Rng, k: usize, depth: usize) -> P {
+        let t = MTy::Struct(k);
+        if rng.chance(1, 3) {
+            if let Some(v) = self.var_of(rng, &t) { return v; }
+        }
+        let d = depth.saturating_sub(1);
+        if depth > 0 && rng.chance(1, 6) {
+            if let Some(c) = self.call_of(rng, &t, d) { return c; }
+        }
+        if depth > 0 && rng.chance(1, 8) {
+            return P::If(bx(self.cond(rng, d)), bx(self.struct_of(rng, k, d)), bx(self.struct_of(rng, k, d)));
+        }
+        let (name, fields) = self.structs[k].clone();
+        P::Mk(name, fields.iter().map(|(f, ft)| (f.clone(), self.of_ty(rng, ft, d))).collect())
+    }
+    /// a field of type `t` of some struct value in scope (or of a fresh struct value)
+    fn field_of(&self, rng: &mut Rng, t: &MTy, depth: usize) -> Option<P> {
+        let mut cands: Vec<(usize, usize, String)> = Vec::new();
+        for (k, (_, fields)) in self.structs.iter().enumerate() {
+            for (i, (f, ft)) in fields.iter().enumerate() {
+                if ft == t { cands.push((k, i, f.clone())); }
+            }
+        }
+        if cands.is_empty() || !rng.chance(1, 5) { return None; }
+        let (k, i, f) = rng.pick(&cands).clone();
+        Some(P::Get(bx(self.struct_of(rng, k, depth.saturating_sub(1))), i, f))
     }
     /// a list expression with elements of type `el`
     fn list_of(&self, rng: &mut Rng, el: &MTy, depth: usize) -> P {
@@ -683,6 +735,7 @@ impl<'a> MGen<'a> {
         }
         if depth > 0 {
             if let Some(h) = self.head_of(rng, &t, depth) { return h; }
+            if let Some(f) = self.field_of(rng, &t, depth) { return f; }
         }
         if depth == 0 || rng.chance(1, 4) {
             if rng.chance(1, 3) || (!self.locals.is_empty() && rng.chance(1, 2)) {
@@ -713,6 +766,7 @@ impl<'a> MGen<'a> {
             if let Some(c) = self.call_of(rng, &MTy::Scalar, depth - 1) { return c; }
         }
         if depth > 0 {
+            if let Some(f) = self.field_of(rng, &MTy::Scalar, depth) { return f; }
             if let Some(h) = self.head_of(rng, &MTy::Scalar, depth) { return h; }
             // the length of some list in scope
             let lists: Vec<MTy> = self.vars.iter().chain(self.locals.iter()).filter_map(|(_, t)| if let MTy::List(_) = t { Some(t.clone()) } else { None }).collect();
@@ -796,6 +850,7 @@ fn parse_p(units: &Units, names: &[String], toks: &mut std::iter::Peekable<std::
         "true" => P::Bool(true),
         "false" => P::Bool(false),
         "neg" => P::Neg(bx(parse_p(units, names, toks)?)),
+        "get" => { let a = parse_p(units, names, toks)?; let i: usize = toks.next()?.parse().ok()?; P::Get(bx(a), i, format!("f{}", i)) }
         "head" => P::Head(bx(parse_p(units, names, toks)?)),
         "tail" => P::Tail(bx(parse_p(units, names, toks)?)),
         "len" => P::Len(bx(parse_p(units, names, toks)?)),
@@ -846,8 +901,9 @@ fn rename_locs(e: &mut P, arity: usize) {
         P::Bin(_, a, b) => { rename_locs(a, arity); rename_locs(b, arity); }
         P::If(c, t, f) => { rename_locs(c, arity); rename_locs(t, arity); rename_locs(f, arity); }
         P::Call(_, _, args) | P::Lst(args) => { for a in args { rename_locs(a, arity); } }
-        P::Head(a) | P::Tail(a) | P::Len(a) => rename_locs(a, arity),
+        P::Head(a) | P::Tail(a) | P::Len(a) | P::Get(a, _, _) => rename_locs(a, arity),
         P::Cons(a, l) => { rename_locs(a, arity); rename_locs(l, arity); }
+        P::Mk(_, fs) => { for (_, e) in fs { rename_locs(e, arity); } }
         _ => {}
     }
 }
@@ -918,8 +974,9 @@ fn probe_nonfinite(c: &numbat::Context, e: &P, subst: &[String], fns: &[(Vec<Str
             match taken { Some(v) if v == 1.0 => vec![c0, t], Some(_) => vec![c0, f], None => vec![c0] }
         }
         P::Call(_, _, args) | P::Lst(args) => args.iter().collect(),
-        P::Head(a) | P::Tail(a) | P::Len(a) => vec![a],
+        P::Head(a) | P::Tail(a) | P::Len(a) | P::Get(a, _, _) => vec![a],
         P::Cons(a, l) => vec![a, l],
+        P::Mk(_, fs) => fs.iter().map(|(_, e)| e).collect(),
         _ => vec![],
     };
     for ch in children {
@@ -973,6 +1030,7 @@ fn canon_nan_all(s: &str) -> String {
 fn run_mprog(ctx: &numbat::Context, units: &Units, out: &mut Out, prog: &[D]) {
     let req = format!("mprog {}", prog.iter().map(|d| match d {
         D::Let(_, e) => format!("(let {})", e.sexpr(units)),
+        D::Struct(_) => "(struct)".to_string(),
         D::Fn(_, ps, ws, e) if ws.is_empty() => format!("(fn {} {})", ps.len(), e.sexpr(units)),
         D::Fn(_, ps, ws, e) => format!("(fn {} (wheres {}) {})", ps.len(), ws.iter().map(|(_, w)| w.sexpr(units)).collect::<Vec<_>>().join(" "), e.sexpr(units)),
     }).collect::<Vec<_>>().join(" "));
@@ -982,6 +1040,7 @@ fn run_mprog(ctx: &numbat::Context, units: &Units, out: &mut Out, prog: &[D]) {
     for d in prog {
         let (name, code) = match d {
             D::Let(name, e) => (Some(name), format!("let {} = {}", name, e.src())),
+            D::Struct(src) => (None, src.clone()),
             D::Fn(name, ps, ws, e) => (None, format!("fn {}({}) = {}{}", name, ps.join(", "), e.src(),
                 if ws.is_empty() { String::new() } else { format!(" where {}", ws.iter().map(|(n, w)| format!("{} = {}", n, w.src())).collect::<Vec<_>>().join(" and ")) })),
         };
@@ -990,13 +1049,13 @@ fn run_mprog(ctx: &numbat::Context, units: &Units, out: &mut Out, prog: &[D]) {
         match res {
             Err(p) => { answers.push(format!("panic {}", p)); break; }
             Ok(Ok(())) => match name {
-                None => answers.push("fn".into()),
+                None => answers.push(if matches!(d, D::Struct(_)) { "struct" } else { "fn" }.into()),
                 Some(name) => match c.verif_raw_global_quantity(name) {
                     // (the conversion target kept for display, `… -> q …`, is not part of the model's quantity)
                     Some(q) => answers.push(canon_nan(show_quantity(&q).split(" -> ").next().unwrap_or(""))),
                     None => {
                         let raw = c.verif_raw_global_value(name).unwrap_or_default();
-                        if raw.starts_with("List<") {
+                        if raw.starts_with("List<") || raw.starts_with("Struct{") {
                             // drop the display targets of the elements: ` -> q … ` up to the closing parenthesis
                             let mut out_s = String::new();
                             let mut rest = raw.as_str();
@@ -1007,7 +1066,25 @@ fn run_mprog(ctx: &numbat::Context, units: &Units, out: &mut Out, prog: &[D]) {
                                 rest = &after[end..];
                             }
                             out_s.push_str(rest);
-                            answers.push(canon_nan_all(&out_s));
+                            // field names are not part of the model's struct values: `Struct{a=v;b=w}` -> `Struct{v;w}`
+                            let mut no_names = String::new();
+                            let cs: Vec<char> = out_s.chars().collect();
+                            let mut i = 0;
+                            while i < cs.len() {
+                                if (cs[i] == '{' || cs[i] == ';') && i + 1 < cs.len() && (cs[i + 1].is_alphabetic() || cs[i + 1] == '_') {
+                                    // `{name=` or `;name=`
+                                    let mut j = i + 1;
+                                    while j < cs.len() && (cs[j].is_alphanumeric() || cs[j] == '_') { j += 1; }
+                                    if j < cs.len() && cs[j] == '=' {
+                                        no_names.push(cs[i]);
+                                        i = j + 1;
+                                        continue;
+                                    }
+                                }
+                                no_names.push(cs[i]);
+                                i += 1;
+                            }
+                            answers.push(canon_nan_all(&no_names));
                         } else {
                             answers.push("bool".into());
                         }
@@ -1041,6 +1118,7 @@ fn run_mprog(ctx: &numbat::Context, units: &Units, out: &mut Out, prog: &[D]) {
     for d in prog {
         match d {
             D::Let(_, e) => e.count_nodes(out),
+            D::Struct(_) => out.count("mprog_struct_definitions"),
             D::Fn(_, _, ws, e) => { e.count_nodes(out); for (_, w) in ws { w.count_nodes(out); } out.count_n("mprog_where_clauses", ws.len() as u64); }
         }
     }
@@ -1089,7 +1167,7 @@ fn run_mprog(ctx: &numbat::Context, units: &Units, out: &mut Out, prog: &[D]) {
 fn main() {
     let args = Args::parse();
     let mut out = Out::new(&args);
-    out.rule = "stream `mprog`: programs of 2-8 let/fn definitions in the fragment of program_soundness (expressions over numbers, units in any spelling, earlier globals, parameters, + - * / neg, constant powers, conversions to unit expressions — one target in forty is the literal 0 —, comparisons, && || !, conditionals, calls of 1-3-parameter user functions — one in three recursive over a small counter, half of the others with 1-2 `where` clauses; lists of scalars and of quantities with literals, head, tail, cons, len, recursion down a list), run definition by definition, raw value of every new global compared bit for bit with the Lean model, and judged by the same oracle as: multi-statement programs (3-10 statements) generated type-directed over the prelude: let-bindings of expression trees (units in any alias/prefix spelling, + - * / neg, conversions, conditionals with comparisons incl. a polymorphic zero on either side, references to earlier globals, calls), powers with compile-time evaluated exponents (integer, fractional, composite arithmetic) followed by an addition at the statically computed exponent, inferred and annotated generic functions, where-clauses, generic structs with field access, lists with head/sum/maximum/mean/map/element_at, dimension and derived-unit definitions with annotated lets; plus the corpus (known-defect shapes). distinct = program text; non-trivial = at least two statements and accepted by the checker".into();
+    out.rule = "stream `mprog`: programs of 2-8 let/fn definitions in the fragment of program_soundness (expressions over numbers, units in any spelling, earlier globals, parameters, + - * / neg, constant powers, conversions to unit expressions — one target in forty is the literal 0 —, comparisons, && || !, conditionals, calls of 1-3-parameter user functions — one in three recursive over a small counter, half of the others with 1-2 `where` clauses; lists of scalars and of quantities with literals, head, tail, cons, len, recursion down a list; structs of 1-3 fields with literals in permuted field order and field access), run definition by definition, raw value of every new global compared bit for bit with the Lean model, and judged by the same oracle as: multi-statement programs (3-10 statements) generated type-directed over the prelude: let-bindings of expression trees (units in any alias/prefix spelling, + - * / neg, conversions, conditionals with comparisons incl. a polymorphic zero on either side, references to earlier globals, calls), powers with compile-time evaluated exponents (integer, fractional, composite arithmetic) followed by an addition at the statically computed exponent, inferred and annotated generic functions, where-clauses, generic structs with field access, lists with head/sum/maximum/mean/map/element_at, dimension and derived-unit definitions with annotated lets; plus the corpus (known-defect shapes). distinct = program text; non-trivial = at least two statements and accepted by the checker".into();
     let ctx = prelude_ctx();
     let units = Units::load(&ctx);
     units.emit(&mut out);
@@ -1144,16 +1222,39 @@ fn main() {
         judge(&ctx, &units, &mut out, &stmts, &checked, &tags);
     }
     // model stream: programs in the fragment of `program_soundness`
+    // a type annotation for every dimension class (struct fields and struct-typed parameters need one)
+    let dim_ann: BTreeMap<String, String> = {
+        let ut: BTreeMap<String, String> = ctx.verif_unit_types().into_iter().collect();
+        let mut m = BTreeMap::new();
+        for (class, rows) in &units.by_dim {
+            if let Some(d) = rows.first().and_then(|i| ut.get(&units.rows[*i].name)).and_then(|t| parse_dim(t)) {
+                let parts: Vec<String> = d.iter().map(|(n, (a, b))| if *b == 1 { if *a == 1 { n.clone() } else { format!("{}^({})", n, a) } } else { format!("{}^({}/{})", n, a, b) }).collect();
+                m.insert(class.clone(), if parts.is_empty() { "Scalar".to_string() } else { parts.join(" * ") });
+            }
+        }
+        m
+    };
+    fn ann(t: &MTy, dim_ann: &BTreeMap<String, String>, structs: &[(String, Vec<(String, MTy)>)]) -> String {
+        match t {
+            MTy::Dim(c) => dim_ann.get(c).cloned().unwrap_or_else(|| "Scalar".into()),
+            MTy::Scalar => "Scalar".into(),
+            MTy::Bool => "Bool".into(),
+            MTy::List(el) => format!("List<{}>", ann(el, dim_ann, structs)),
+            MTy::Struct(k) => structs[*k].0.clone(),
+        }
+    }
     let nm = args.count(400, 20000);
     for k in 0..nm {
-        let mut g = MGen { units: &units, dims: dims.clone(), vars: vec![], locals: vec![], fns: vec![] };
+        let mut g = MGen { units: &units, dims: dims.clone(), vars: vec![], locals: vec![], fns: vec![], structs: vec![] };
         let len = 2 + rng.below(6);
         let mut prog: Vec<D> = Vec::new();
         for j in 0..len {
             let depth = 1 + (k + j) % 4;
             // the type of the definition: half of them reuse the dimension of an earlier global
             let pick_ty = |g: &MGen, rng: &mut Rng| -> MTy {
-                match rng.below(9) {
+                match rng.below(10) {
+                    9 if !g.structs.is_empty() => MTy::Struct(rng.below(g.structs.len())),
+                    9 => MTy::Scalar,
                     0 => MTy::Bool,
                     1 | 2 => MTy::Scalar,
                     8 => {
@@ -1168,7 +1269,19 @@ fn main() {
                     }
                 }
             };
-            if rng.chance(1, 4) {
+            if g.structs.len() < 2 && rng.chance(1, 8) {
+                // a struct of 1-3 fields (quantities, scalars, booleans, lists of them)
+                let sname = format!("ZS{}", g.structs.len());
+                let nf = 1 + rng.below(3);
+                let mut fields: Vec<(String, MTy)> = Vec::new();
+                for fi in 0..nf {
+                    let ft = loop { let t = pick_ty(&g, &mut rng); if !matches!(t, MTy::Struct(_)) { break t; } };
+                    fields.push((format!("zf_{}", ["a", "b", "c"][fi]), ft));
+                }
+                let src = format!("struct {} {{ {} }}", sname, fields.iter().map(|(f, t)| format!("{}: {}", f, ann(t, &dim_ann, &g.structs))).collect::<Vec<_>>().join(", "));
+                g.structs.push((sname, fields));
+                prog.push(D::Struct(src));
+            } else if rng.chance(1, 4) {
                 // a function of 1-3 parameters; one in three is recursive over a scalar counter
                 let f = g.fns.len();
                 let name = format!("zf{}", f);
@@ -1180,13 +1293,15 @@ fn main() {
                 let over_list = recursive && rng.chance(1, 2);
                 if recursive {
                     ptys[0] = if over_list {
-                        MTy::List(Box::new(if let MTy::List(el) = &ret { (**el).clone() } else if ret == MTy::Bool { MTy::Scalar } else { ret.clone() }))
+                        MTy::List(Box::new(if let MTy::List(el) = &ret { (**el).clone() } else if ret == MTy::Bool || matches!(ret, MTy::Struct(_)) { MTy::Scalar } else { ret.clone() }))
                     } else {
                         MTy::Scalar
                     };
                 }
                 let pnames: Vec<String> = (0..np).map(|i| format!("zp{}", i)).collect();
                 g.locals = pnames.iter().cloned().zip(ptys.iter().cloned()).collect();
+                // (the source text of a struct-typed parameter carries its type: field access needs it)
+                let pnames: Vec<String> = pnames.iter().zip(ptys.iter()).map(|(n, t)| if let MTy::Struct(k) = t { format!("{}: {}", n, g.structs[*k].0) } else { n.clone() }).collect();
                 // 0-2 `where` clauses over the parameters (and the earlier clauses); they are further locals of the body
                 let mut wheres: Vec<(String, P)> = Vec::new();
                 if !recursive && rng.chance(1, 2) {
@@ -1210,6 +1325,7 @@ fn main() {
                         MTy::Scalar => if over_list { P::Bin("add", bx(step), bx(head_elem)) } else { P::Bin("add", bx(step), bx(P::Num(1.0))) },
                         MTy::Dim(_) => if over_list { P::Bin("add", bx(head_elem), bx(step)) } else { P::Bin("add", bx(step), bx(base.clone())) },
                         MTy::List(el) => P::Cons(bx(if over_list { head_elem } else { g.of_ty(&mut rng, el, 1) }), bx(step)),
+                        MTy::Struct(_) => step,
                     };
                     let stop = if over_list { P::Bin("eq", bx(P::Len(bx(P::Loc(0, "zp0".into())))), bx(P::Num(0.0))) } else { P::Bin("le", bx(P::Loc(0, "zp0".into())), bx(P::Num(0.0))) };
                     P::If(bx(stop), bx(base), bx(wrapped))
